@@ -9,7 +9,8 @@ use std::collections::HashMap;
 use std::net::{IpAddr, SocketAddr};
 use std::time::Duration;
 use vp_common::{Cli, Report, Rng, Tier};
-use vp_sim::client::{Client, Transport};
+use vp_common::refcodec::Pkt;
+use vp_sim::client::{Act, Client, Transport};
 use vp_sim::recadapters::Call;
 use vp_sim::scripts::{self, Ident};
 
@@ -551,6 +552,78 @@ async fn config_file_wiring(report: &mut Report) {
     }
 }
 
+/// "Authentication cookies are bound to the announced source address": a cookie issued to one
+/// announced source is presented again from the same address (another port: accepted), and from
+/// addresses *close* to it - the neighbour in the same IPv6 /64, the next IPv4 address, another
+/// IPv4-mapped address - where the client must be told to authenticate.
+async fn cookie_binding_family(report: &mut Report) {
+    let direct = start_direct(DirectSpec { timeout: Duration::from_secs(6), proxy: Some((true, true)), secret: Some(b"cookie-binding-secret".to_vec()), ..Default::default() }).await;
+    let addr = direct.addr;
+    let pairs: [(&str, &str, &str); 4] = [
+        ("same-ipv6-/64", "[2001:db8:5::10]:40000", "[2001:db8:5::11]:40000"),
+        ("ipv4-neighbour", "198.51.100.40:40000", "198.51.100.41:40000"),
+        ("ipv4-mapped-neighbour", "[::ffff:192.0.2.40]:40000", "[::ffff:192.0.2.41]:40000"),
+        ("other-ipv6-/64", "[2001:db8:6::10]:40000", "[2001:db8:7::10]:40000"),
+    ];
+    for (pi, (name, issued_to, neighbour)) in pairs.iter().enumerate() {
+        let issued_to: SocketAddr = issued_to.parse().expect("addr");
+        let neighbour: SocketAddr = neighbour.parse().expect("addr");
+        // 1. a fresh login from `issued_to` stores the cookie
+        let Ok(end) = TcpEnd::connect(addr, None).await else {
+            report.inconclusive("cookie binding: connect failed");
+            continue;
+        };
+        end.send(&if pi % 2 == 0 { tcp::proxy_v2(issued_to, addr) } else { tcp::proxy_v1(issued_to, addr) });
+        let claimed = Ident { name: format!("Bound{pi}"), uuid: 900 + pi as u128 };
+        let log = Client::new(&end, scripts::plan(scripts::login_script(2, "bind.example.org", 25565, &claimed, "en_us"), false, [8u8; 16], Duration::from_secs(5))).run().await;
+        end.kill();
+        let cookie = log.received.iter().find_map(|r| match &r.pkt {
+            Ok(Pkt::StoreCookie { key, payload }) if key == AUTH_KEY => Some(payload.clone()),
+            _ => None,
+        });
+        let Some(cookie) = cookie else {
+            report.inconclusive(&format!("cookie binding/{name}: the fresh login stored no authentication cookie ({:?})", log.names()));
+            continue;
+        };
+        // 2. presented again: same address (another port), then the neighbour
+        let mut same_port = issued_to;
+        same_port.set_port(issued_to.port() + 7);
+        for (who, src, expect_skip) in [("same-address-other-port", same_port, true), ("neighbour", neighbour, false)] {
+            let Ok(end) = TcpEnd::connect(addr, None).await else { continue };
+            end.send(&if pi % 2 == 0 { tcp::proxy_v2(src, addr) } else { tcp::proxy_v1(src, addr) });
+            let mut plan = scripts::plan(
+                vec![
+                    scripts::send("Handshake", scripts::handshake(3, "bind.example.org", 25565, 770)),
+                    scripts::send("LoginStart", Pkt::LoginStart { name: "Returning".into(), uuid: 5 }),
+                    Act::AwaitPkt { name: "EncryptionRequest", nth: 1 },
+                    Act::Close,
+                    Act::AwaitClose,
+                ],
+                false,
+                [9u8; 16],
+                Duration::from_secs(5),
+            );
+            plan.cookies = vec![(AUTH_KEY.to_string(), Some(cookie.clone()))];
+            let log = Client::new(&end, plan).run().await;
+            end.kill();
+            let flag = log.enc_request.as_ref().map(|e| e.2);
+            report.eval(Some(&format!("cookie-binding/{name}/{who}")));
+            report.count("cookies issued to one announced source and presented from another", 1);
+            let detail = json!({"issued_to": issued_to.to_string(), "presented_from": src.to_string(), "should_authenticate": flag, "clientbound": log.names()});
+            if pi == 0 {
+                report.sample(json!({"case": format!("cookie binding/{name}/{who}"), "observed": detail}));
+            }
+            match (flag, expect_skip) {
+                (Some(false), false) => report.violation(&format!("cookie-not-bound-to-announced-source/{name}"), &format!("a cookie issued to {issued_to} was accepted from {src} without authentication"), detail),
+                (Some(true), true) => report.violation("cookie-refused-from-its-own-source", &format!("a cookie issued to {issued_to} was refused from {src} (same address, another port)"), detail),
+                (None, _) => report.inconclusive(&format!("cookie binding/{name}/{who}: the connection ended before the Encryption Request")),
+                _ => {}
+            }
+        }
+    }
+    direct.stop.cancel();
+}
+
 pub async fn run(cli: &Cli, report: &mut Report) {
     let seqs = generate(cli);
     let futs: Vec<_> = seqs.iter().map(run_seq).collect();
@@ -583,6 +656,7 @@ pub async fn run(cli: &Cli, report: &mut Report) {
     config_wiring(report).await;
     config_file_wiring(report).await;
     if cli.prop == "C15" {
+        cookie_binding_family(report).await;
         crate::c08net::run(cli, report).await;
     }
 }
